@@ -24,6 +24,8 @@ def enabled(events, maxnest, rich=True, comments=True, flow=True, tests=True, cl
     if can_open:
         out += [{"k": "function", "doc": d, "params": ["p1", "p2"]} for d in (0, 1, 2)]
         out += [{"k": "macro", "doc": d, "params": ["q"]} for d in docs]
+        if rich:
+            out += [{"k": "function", "doc": 1, "name": "twin_fn", "doctext": ["Twin function doc."], "params": ["t"]}]
         if flow:
             out += [{"k": "if", "doc": d} for d in docs] + [{"k": "foreach", "doc": 0}]
             if rich:
@@ -49,6 +51,8 @@ def enabled(events, maxnest, rich=True, comments=True, flow=True, tests=True, cl
         out += [{"k": "set", "doc": d} for d in docs]
         out += [{"k": "generic", "doc": d} for d in docs]
         if rich:
+            # the same documented command verbatim (same name, same doc) may occur several times in a module
+            out += [{"k": "set", "doc": 1, "name": "TWIN_VAR", "doctext": ["Twin var doc."], "values": ["v"]}]
             out += [{"k": "generic", "doc": 1, "cmd": "add_library", "args": ["tgt", "STATIC", "a.c"]},
                     {"k": "generic", "doc": 1, "cmd": "include_guard", "args": []}]
     out += [{"k": "cmake_parse_arguments"}]
